@@ -31,8 +31,12 @@ EXTENDS IoRing, Json, IOUtils
 
 VARIABLE i          \* next line of the log to match
 
-Log == ndJsonDeserialize(IOEnv.TRACE)
-Hdr == Log[1]
+\* the file is parsed once, when the assumptions are checked, and kept in a TLC register
+\* (a plain definition is re-evaluated in every state: validation becomes quadratic)
+ASSUME TLCSet(1, ndJsonDeserialize(IOEnv.TRACE))
+Log == TLCGet(1)
+\* the header is needed before the assumptions are checked (cfg substitutions)
+Hdr == ndJsonDeserialize(IOEnv.TRACE)[1]
 SeqToSet(s) == {s[j] : j \in DOMAIN s}
 
 \* constants of IoRing, from the header (substituted in IoRingTrace.cfg)
